@@ -16,7 +16,7 @@ RULE = (
     'non-trivial iff the broadcast batch has >= 2 elements'
 )
 REQUIRED = ["kernel_replica", "mean_replica", "likelihood_replica", "posterior_replica", "mll_replica", "svgp_replica", "kl_replica", "elbo_replica", "model_list_identical", "sum_mll_is_mean"]
-ASSUMPTIONS = ["replicas are built by slicing the batched object's state_dict: a tensor with batch dims (possibly size-1) is indexed with the element's index (0 on size-1 dims)"]
+ASSUMPTIONS = ["the leave-one-out objective is compared element-wise wherever it evaluates; it refuses (explicit reshape error) parameters with more batch dimensions than the targets - counted under info:, not a violation (the statement names marginal log likelihood, ELBO and KL)", "replicas are built by slicing the batched object's state_dict: a tensor with batch dims (possibly size-1) is indexed with the element's index (0 on size-1 dims)"]
 ANCHOR_FILES = ["gpytorch/kernels/", "gpytorch/means/", "gpytorch/likelihoods/", "gpytorch/models/", "gpytorch/mlls/", "gpytorch/variational/"]
 
 SHAPES = [[], [2], [3, 2], [1, 2], [3, 1]]
@@ -68,6 +68,8 @@ def cases(tier, seed):
                 if tier == "quick" and rnd.random() < 0.0 and not (pb and dist.startswith("MeanField")):
                     continue
                 yield {"kind": "svgp", "pbatch": pb, "dbatch": db, "zbatch": zb, "strategy": strat, "dist": dist, "seed": rnd.randrange(10**6)}
+        for T_, strat in itertools.product([2, 3], ["VariationalStrategy", "UnwhitenedVariationalStrategy"]):
+            yield {"kind": "indep_mt", "T": T_, "strategy": strat, "seed": rnd.randrange(10**6)}
         for pb, db in (([2], [2]), ([], [3]), ([3], [3]), ([2], [3, 2])):
             yield {"kind": "exact", "pbatch": pb, "dbatch": db, "nan_fill": True, "seed": rnd.randrange(10**6)}
         # targets carrying batch dimensions the inputs and the model do not have (data broadcast against each other)
@@ -99,7 +101,7 @@ def run_case(case, ctx):
     from vf import util
 
     g = util.gen(case["seed"])
-    return {"kernel": _kernel, "mean": _mean, "lik": _lik, "exact": _exact, "svgp": _svgp, "modellist": _modellist}[case["kind"]](case, ctx, g)
+    return {"kernel": _kernel, "mean": _mean, "lik": _lik, "exact": _exact, "svgp": _svgp, "indep_mt": _indep_mt, "modellist": _modellist}[case["kind"]](case, ctx, g)
 
 
 def _ex(t, full, *rest):
@@ -283,6 +285,17 @@ def _exact(case, ctx, g):
                 ctx.fail("mll_replica", f"batched exact MLL raised {type(e_mll).__name__}: {str(e_mll)[:140]}", "raise", exc=type(e_mll).__name__, param_batch_rank=len(pb), result_batch_rank=len(full),
                          in_prior_terms="_add_other_terms" in traceback.format_exc())
                 v = None
+            # the leave-one-out objective of the same model (same prior terms, scaled by ITS element's number of data)
+            vl = None
+            if not nanfill:
+                try:
+                    vl = gpytorch.mlls.LeaveOneOutPseudoLikelihood(m.likelihood, m)(m(X), y)
+                except Exception as e_loo:
+                    import traceback
+
+                    # the LOO objective is not among the batched outputs the statement names and refuses (explicit reshape
+                    # error) parameters with more batch dimensions than the targets: compared where it evaluates
+                    ctx.hit("info:loo_refuses_parameter_batch_beyond_targets")
     except Exception as e:
         ctx.fail("posterior_replica", f"batched exact GP raised {type(e).__name__}: {str(e)[:140]}", "raise", exc=type(e).__name__, prank=len(pb), drank=len(db), pbatch=pb, dbatch=db,
                  param_batch_rank=len(pb), result_batch_rank=len(full), in_prior_terms="_add_other_terms" in __import__("traceback").format_exc())
@@ -306,10 +319,13 @@ def _exact(case, ctx, g):
             ro = r(xsb)
             r.train()
             rv = None if nanfill else gpytorch.mlls.ExactMarginalLogLikelihood(r.likelihood, r)(r(Xb), yb_)
+            rvl = None if (nanfill or vl is None) else gpytorch.mlls.LeaveOneOutPseudoLikelihood(r.likelihood, r)(r(Xb), yb_)
         if not yonly:
             ctx.close("posterior_replica", torch.cat([me[b], ce[b].reshape(-1)]), torch.cat([ro.mean, ro.covariance_matrix.reshape(-1)]), "direct", cls="exact:posterior", element=list(b))
         if ve is not None:
             ctx.close("mll_replica", ve[b], rv, "direct", cls="exact:mll" + (":ybatch" if yonly else ""), element=list(b), param_batch_rank=len(pb), result_batch_rank=len(full))
+        if vl is not None and list(vl.shape) == full:
+            ctx.close("mll_replica", _ex(vl, full)[b], rvl, "direct", cls="exact:loo" + (":ybatch" if yonly else ""), element=list(b), param_batch_rank=len(pb), result_batch_rank=len(full), objective="loo")
     ctx.cell(*_cell(case, full))
 
 
@@ -397,6 +413,76 @@ def _svgp(case, ctx, g):
         else:
             ctx.close("kl_replica", kl, rk, (1e-7, 1e-7), cls="svgp:kl", element=list(b))
     ctx.cell(*_cell(case, full))
+
+
+def _indep_mt(case, ctx, g):
+    """IndependentMultitaskVariationalStrategy: the batch of latent GPs IS the set of tasks. The multitask output's task-t
+    block, and with task_indices the entries of the points assigned to task t, equal the non-batched replica carrying the
+    t-th slice of the parameters; entries that pair different tasks are zero."""
+    import torch
+
+    import gpytorch
+    from vf import util
+
+    V = gpytorch.variational
+    T, M_, n = case["T"], 4, 6
+    Z = util.randn(g, T, M_, D)
+    B = torch.Size([T])
+
+    class W(gpytorch.models.ApproximateGP):
+        def __init__(s):
+            vd = V.CholeskyVariationalDistribution(M_, batch_shape=B)
+            base = getattr(V, case["strategy"])(s, Z, vd, learn_inducing_locations=True)
+            super().__init__(V.IndependentMultitaskVariationalStrategy(base, num_tasks=T))
+            s.mean_module = gpytorch.means.ConstantMean(batch_shape=B)
+            s.covar_module = gpytorch.kernels.ScaleKernel(gpytorch.kernels.RBFKernel(batch_shape=B), batch_shape=B)
+
+        def forward(s, x):
+            return gpytorch.distributions.MultivariateNormal(s.mean_module(x), s.covar_module(x))
+
+    class _Renamed:
+        """the wrapped model's state under the names of a plain SVGP model (the base strategy is the replica's strategy)"""
+
+        def __init__(s, mod):
+            s.mod = mod
+
+        def state_dict(s):
+            return {k.replace("variational_strategy.base_variational_strategy.", "variational_strategy."): v for k, v in s.mod.state_dict().items()}
+
+    m = W()
+    base_model = _Renamed(m)
+    util.randomize(m, g, 0.5)
+    for mod in m.modules():
+        if hasattr(mod, "variational_params_initialized"):
+            mod.variational_params_initialized.fill_(1)
+    X = util.randn(g, n, D)
+    ti = torch.randint(0, T, (n,), generator=g)
+    ti[:2] = torch.tensor([0, T - 1])
+    reps = []
+    with torch.no_grad():
+        m.eval()
+        full = m(X)
+        sub = m(X, task_indices=ti)
+        for t in range(T):
+            r = _mk_svgp([], Z[t].clone(), case["strategy"], "CholeskyVariationalDistribution")
+            _load_slice(base_model, r, (t,), [T])
+            for mod in r.modules():
+                if hasattr(mod, "variational_params_initialized"):
+                    mod.variational_params_initialized.fill_(1)
+            r.eval()
+            reps.append(r(X))
+    rm = torch.stack([o.mean for o in reps], -1)  # n x T
+    rc = torch.stack([o.covariance_matrix for o in reps])  # T x n x n
+    ctx.close("svgp_replica", full.mean, rm, (1e-7, 1e-7), cls="indep_mt:mean")
+    Cf = full.covariance_matrix.reshape(n, T, n, T) if full._interleaved else full.covariance_matrix.reshape(T, n, T, n).permute(1, 0, 3, 2)
+    ref = torch.zeros(n, T, n, T)
+    for t in range(T):
+        ref[:, t, :, t] = rc[t]
+    ctx.close("svgp_replica", Cf, ref, (1e-7, 1e-7), cls="indep_mt:cov")
+    same = (ti.unsqueeze(-1) == ti.unsqueeze(-2)).double()
+    ctx.close("svgp_replica", sub.mean, rm[torch.arange(n), ti], (1e-7, 1e-7), cls="indep_mt:task_indices:mean")
+    ctx.close("svgp_replica", sub.covariance_matrix, rc[ti, torch.arange(n)] * same, (1e-7, 1e-7), cls="indep_mt:task_indices:cov")
+    ctx.cell({"kind": "indep_mt", "T": T, "strategy": case["strategy"]})
 
 
 def _modellist(case, ctx, g):
